@@ -562,9 +562,15 @@ func runCheck(o *checkOpts) int {
 	for sig := range res.viols.count {
 		hasCand[strings.SplitN(sig, "|", 2)[0]] = true
 	}
+	var undecided []string
 	for _, n := range names {
 		if st.perHarness[n] == 0 && !hasCand[n] && exhaustive0(res) {
-			vacuous = append(vacuous, n)
+			if st.inconcPerH[n] > 0 {
+				// every path ran into something the engine cannot execute: no verdict, not an alarm
+				undecided = append(undecided, n)
+			} else {
+				vacuous = append(vacuous, n)
+			}
 		}
 	}
 
@@ -645,6 +651,7 @@ func runCheck(o *checkOpts) int {
 			"fuel_per_path":                 o.fuel,
 			"repo_head":                     repoHead(),
 			"vacuous_harnesses":             vacuous,
+			"undecided_harnesses":           undecided,
 		},
 		"assumptions": []string{
 			"go/packages + go/ssa (x/tools v0.29.0) construct the SSA of /repo correctly",
@@ -670,6 +677,9 @@ func runCheck(o *checkOpts) int {
 	}
 	for _, l := range lines {
 		fmt.Println(l)
+	}
+	for _, n := range undecided {
+		fmt.Printf("UNDECIDED harness=%s: every path is inconclusive (see the reasons above); the claim of this run does not include it\n", n)
 	}
 	if violations > 0 {
 		return 1
